@@ -1,2 +1,29 @@
-From Coq Require Import List ZArith.
-From Gosk Require Import Base.Bytes Spec.X86.
+(** C02 - memory operands encode the effective address that was written (16-bit addressing, proved).
+    For every addressing shape the operand parser can produce from 16-bit registers (BX/BP x SI/DI,
+    single base, single index), every register field 0..7 and EVERY displacement d in the disp16
+    range, the model of calculateModRM yields ModR/M + displacement bytes that the SDM decoder
+    (table 2-1, written independently in Spec/X86.v) reads back as exactly that base, index and
+    signed displacement, consuming exactly the emitted bytes, whatever follows.  The special cases
+    ([BP] with no displacement, disp8 versus disp16 at -128/127) are ordinary cases of the statement.
+    32-bit shapes (SIB) are not proved; they are covered by the exhaustive correspondence and by
+    evaluating the decoder on gosk's own output (three SIB defects are known findings). *)
+From Coq Require Import List ZArith String Bool.
+From Gosk Require Import Base.Bytes Model.Ast Model.Asm Model.X86Enc Spec.X86 Lemmas.ModRMLemmas.
+Import ListNotations.
+Local Open Scope Z_scope.
+
+Theorem C02_modrm16_exact : forall b i eb ei reg d rest,
+  In (b, i, eb, ei) shapes16 -> In reg regs8 -> -32768 <= d <= 32767 ->
+  exists x, calc_modrm (mk_mem b i 0 d) M16 (reg * 8) = Some x
+            /\ decode_modrm 16 (modrm_bytes x ++ rest) = Some (reg, RmMem (ea16 eb ei d), zlen (modrm_bytes x)).
+Proof. exact modrm16_sound. Qed.
+Print Assumptions C02_modrm16_exact.
+
+Example C02_bp_needs_disp : exists x, calc_modrm (mk_mem "BP" "" 0 0) M16 0 = Some x /\ modrm_bytes x = [70; 0].
+Proof. eexists. split; reflexivity. Qed.
+
+(* the SIB defect on the model: [EAX+EAX] loses its SIB byte (finding X86-sib-zero-dropped) *)
+Theorem C02_sib_zero_refuted : exists x, calc_modrm (mk_mem "EAX" "EAX" 1 0) M32 8 = Some x /\ modrm_bytes x = [12]
+  /\ decode_modrm 32 (modrm_bytes x) = None.
+Proof. eexists. repeat split; reflexivity. Qed.
+Print Assumptions C02_sib_zero_refuted.
